@@ -4,6 +4,7 @@ def b_PhantomObstacle_create_node : CR.SrcW.Builder where
   kind := .node
   tag := "?obstacle_role.value + 'Obstacle'"
   xsd := "phantomObstacle"
+  path := []
   parent := ""
   attrs := []
   gattrs := []
